@@ -1324,6 +1324,61 @@ impl Gen {
         self.push(Op::Observe);
     }
 
+    /// A table whose stream outgrows the container's thresholds (4,096 bytes: mini
+    /// stream to regular sectors; 8,192 bytes: the stream buffer), filled in two
+    /// interleaved batches, then cut back below them again.
+    fn macro_bulk(&mut self) {
+        if self.model.tables.keys().filter(|n| n.starts_with("Bk")).count() >= 1 {
+            return;
+        }
+        self.serial += 1;
+        let name = format!("Bk{}", self.serial);
+        let with_str = self.rng.chance(400);
+        let mut cols = vec![ColSpec::new("K", if self.rng.chance(500) { CType::I32 } else { CType::I16 }).key(), ColSpec::new("V", CType::I16).nullable()];
+        if with_str {
+            cols.push(ColSpec::new("S", CType::Str(0)).nullable());
+        }
+        if self.model.expect_create_table(&name, &cols) != Expect::Ok {
+            return;
+        }
+        self.model.apply_create_table(&name, &cols);
+        self.push(Op::CreateTable { name: name.clone(), cols });
+        let n = *self.rng.pick(&[600i32, 700, 1100, 1400, 2100, 2800]);
+        let tok = self.token(false);
+        let mk = |i: i32, with_str: bool, tok: &str| {
+            let mut r = vec![Val::Int(i), if i % 7 == 0 { Val::Null } else { Val::Int(i % 1000) }];
+            if with_str {
+                r.push(if i % 5 == 0 { Val::Null } else { Val::Str(format!("{}{}", tok, i % 3)) });
+            }
+            r
+        };
+        for phase in 0..2 {
+            let rows: Vec<Vec<Val>> = (0..n).filter(|i| i % 2 == phase).map(|i| mk(i, with_str, &tok)).collect();
+            match self.model.plan_insert(&name, &rows) {
+                Ok(nt) => {
+                    self.model.tables.insert(name.clone(), nt);
+                    self.push(Op::Insert { table: name.clone(), rows });
+                }
+                Err(_) => return,
+            }
+            if self.rng.chance(500) {
+                let r = self.op_restart();
+                self.push(r);
+            }
+        }
+        if self.rng.chance(700) {
+            let cut = *self.rng.pick(&[100i32, 500, 680, 1365]);
+            let cond = Some(Cond::Cmp("K".into(), CmpOp::Ge, Val::Int(cut)));
+            if let Ok(nt) = self.model.plan_delete(&name, &cond) {
+                self.model.tables.insert(name.clone(), nt);
+                self.push(Op::Delete { table: name.clone(), cond });
+            }
+            let r = self.op_restart();
+            self.push(r);
+        }
+        self.push(Op::Observe);
+    }
+
     // ------------------------------------------------------------ live handles
 
     fn op_handle(&mut self) -> Option<Op> {
@@ -1382,6 +1437,10 @@ impl Gen {
         }
         if matches!(self.profile, Profile::Clean | Profile::Benign | Profile::Crash | Profile::Reject | Profile::Schema) && self.rng.chance(35) {
             self.macro_quiet_bump();
+            return;
+        }
+        if matches!(self.profile, Profile::Clean | Profile::Benign | Profile::Crash | Profile::Reject | Profile::Foreign | Profile::Streams | Profile::ReadOnly) && self.handles_open.is_empty() && self.rng.chance(5) {
+            self.macro_bulk();
             return;
         }
         let k = self.rng.weighted(&self.weights.clone());
